@@ -93,10 +93,11 @@ fn make_input(b: &Base, seed: u64, scn: &Value) -> Vec<u8> {
         }
         "insert" => {
             // one foreign character at position n of the valid text (blank, tab, line ends, '=', NUL, non-ASCII, url-safe)
-            let specials: [&str; 9] = [" ", "\t", "\n", "\r", "=", "\0", "\u{e9}", "-", "  "];
+            // k >= 9: characters of 3 and 4 bytes, no-break space, byte-order mark
+            let specials: [&str; 13] = [" ", "\t", "\n", "\r", "=", "\0", "\u{e9}", "-", "  ", "\u{2013}", "\u{1f511}", "\u{a0}", "\u{feff}"];
             let mut v = valid.clone();
             let pos = std::cmp::min(n, v.len());
-            let ins = specials[(k % 9) as usize].as_bytes();
+            let ins = specials[(k % 13) as usize].as_bytes();
             v.splice(pos..pos, ins.iter().cloned());
             v
         }
